@@ -37,6 +37,8 @@ def generate(seed, stratum, tier):
     o['instrumented'] = rng.random() < 0.75     # ActiveObject(instrumented=False): no spy, no trace
     if rng.random() < 0.3:
       o['live_spy'], o['live_trace'] = rng.choice([(True, False), (False, True), (True, True)])    # through the writer thread
+    if stratum != 'no-overflow' and rng.random() < 0.3:
+      o['class_cap'] = rng.choice([8, 12, 20])      # the object's class declares a larger QUEUE_SIZE of its own
     if rng.random() < 0.4:
       o['react'] = {'SA': [{'op': rng.choice(['post_fifo', 'post_lifo']), 'sig': rng.choice(['SB', 'SC']), 'id': 1, 'max': 2}]}
   cap = 500 if stratum == 'no-overflow' else rng.choice([3, 4, 6])
